@@ -24,14 +24,15 @@ type Profile struct {
 	MuxClose  int // explicit multiplexer close in the middle
 	Inject    int // percentage of cases that end with injected (adversarial) frames
 	Deliver   int
+	Race      int  // percentage of cases that start with the Write/CloseWrite race scenario
 	ZeroReads bool // zero-length reads (tear the unrepaired code down: C24's finding)
 	ConcOpen  bool // concurrent opens in the stress workload (ditto)
 }
 
 // Profiles per property.
 var Profiles = map[string]Profile{
-	"C23": {Name: "C23", Data: 40, ZeroLen: 4, Shut: 8, OpenClose: 8, Deadline: 3, Stall: 3, MuxClose: 1, Inject: 0, Deliver: 40},
-	"C24": {Name: "C24", Data: 22, ZeroLen: 10, Shut: 12, OpenClose: 16, Deadline: 5, Stall: 6, MuxClose: 1, Inject: 20, Deliver: 34, ZeroReads: true, ConcOpen: true},
+	"C23": {Name: "C23", Data: 40, ZeroLen: 4, Shut: 8, OpenClose: 8, Deadline: 3, Stall: 3, MuxClose: 1, Inject: 0, Deliver: 40, Race: 35},
+	"C24": {Name: "C24", Data: 22, ZeroLen: 10, Shut: 12, OpenClose: 16, Deadline: 5, Stall: 6, MuxClose: 1, Inject: 20, Deliver: 34, Race: 30, ZeroReads: true, ConcOpen: true},
 	"C25": {Name: "C25", Data: 22, ZeroLen: 3, Shut: 12, OpenClose: 16, Deadline: 14, Stall: 4, MuxClose: 4, Inject: 0, Deliver: 30},
 }
 
@@ -186,6 +187,70 @@ func (cs *caseState) after(tok, out string) {
 	}
 }
 
+// raceCandidate finds a stream of the side with a Write in flight whose next
+// inbound frame is a window increment for it.
+func (cs *caseState) raceCandidate(side int) (uint64, bool) {
+	tr := cs.tr
+	if cs.muxClosed || tr.Stalled[side] {
+		return 0, false
+	}
+	f, ok := tr.Car[1-side].PeekOut()
+	if !ok || f.Kind != 4 {
+		return 0, false
+	}
+	if tr.Streams[side][f.ID] != nil && tr.InFlightOn(side, 'w', f.ID) {
+		return f.ID, true
+	}
+	return 0, false
+}
+
+// raceScenario drives one established stream into the race: a multi-chunk
+// Write blocked on the window, the peer reads, the increment is in flight,
+// and CloseWrite arrives together with it.
+func (cs *caseState) raceScenario() {
+	tr, r := cs.tr, cs.r
+	side := r.Intn(2)
+	ids := tr.StreamIDs(side)
+	var id uint64
+	found := false
+	for _, x := range ids {
+		if tr.Streams[1-side][x] != nil && !tr.InFlightOn(side, 'w', x) && !tr.InFlightOn(1-side, 'r', x) {
+			id, found = x, true
+			break
+		}
+	}
+	w := tr.Cfg[1-side].Window
+	if !found || w == 0 || tr.Stalled[side] || tr.Stalled[1-side] || cs.muxClosed {
+		return
+	}
+	S, P := sideName[side], sideName[1-side]
+	rounds := 1 + r.Intn(3)
+	cs.do(fmt.Sprintf("w:%s:%d:%s", S, id, hx.Hex(cs.payload(side, id, w*(rounds+1)+1+r.Intn(3)))))
+	for k := 0; k < rounds; k++ {
+		for tr.Car[side].Pending() > 0 {
+			cs.do("d:" + P)
+		}
+		cs.do(fmt.Sprintf("r:%s:%d:%d", P, id, 1+r.Intn(w+1)))
+		if k < rounds-1 {
+			for tr.Car[1-side].Pending() > 0 {
+				cs.do("d:" + S)
+			}
+		}
+	}
+	if x, ok := cs.raceCandidate(side); ok && x == id {
+		cs.do(fmt.Sprintf("dcw:%s:%d", S, id))
+	}
+	// let the peer drain and observe the end of the stream
+	for k := 0; k < 6; k++ {
+		for tr.Car[side].Pending() > 0 {
+			cs.do("d:" + P)
+		}
+		if !tr.InFlightOn(1-side, 'r', id) {
+			cs.do(fmt.Sprintf("r:%s:%d:%d", P, id, w+2))
+		}
+	}
+}
+
 func (cs *caseState) payload(side int, id uint64, n int) []byte {
 	b := make([]byte, n)
 	for i := range b {
@@ -292,6 +357,12 @@ func (cs *caseState) next() bool {
 		}
 		return true
 	case pick(pf.Shut):
+		// CloseWrite racing with a Write that is blocked mid-payload and is about
+		// to receive more window
+		if id, ok := cs.raceCandidate(side); ok && r.Chance(2, 3) {
+			cs.do(fmt.Sprintf("dcw:%s:%d", S, id))
+			return true
+		}
 		id, ok := cs.pickStream(side)
 		if !ok {
 			return false
@@ -541,6 +612,10 @@ func runTraceInner(t *testing.T, r *hx.Rand, prof Profile, steps int, replay []s
 					p := strings.Split(tok, ":")
 					tok = p[0] + ":" + p[1]
 				}
+				if strings.HasPrefix(tok, "dcw:") {
+					p := strings.Split(tok, ":")
+					tok = p[0] + ":" + p[1] + ":" + p[2]
+				}
 				cs.do(tok)
 			}
 		} else {
@@ -554,6 +629,10 @@ func runTraceInner(t *testing.T, r *hx.Rand, prof Profile, steps int, replay []s
 					cs.do("a:" + sideName[1-s])
 				}
 				cs.do("d:" + sideName[s])
+			}
+			if pre > 0 && prof.Race > 0 && r.Intn(100) < prof.Race {
+				cs.raceScenario()
+				cs.counts["race-scenario"]++
 			}
 			tries := 0
 			for len(cs.toks) < steps && tries < steps*20 {
